@@ -274,7 +274,7 @@ impl Model {
 
     fn range(&self, start: u32, len: u32) -> Option<std::ops::Range<usize>> {
         let (s, l) = (start as usize, len as usize);
-        if s + l <= MEM {
+        if s + l <= self.mem.len() {
             Some(s..s + l)
         } else {
             None
